@@ -314,17 +314,10 @@ func TestSim(t *testing.T) {
 			time.Sleep(time.Second)
 			limit := 180 * time.Second // a whole world; generous, the machine may be busy
 			if prop.ID == "C05" {
-				limit = 60 * time.Second // one load of at most a few KB (normally well under 10 ms)
+				limit = 120 * time.Second // one load of at most a few KB (normally well under 10 ms); confirmed by the driver before it counts
 			}
 			if s := actStart.Load(); s != 0 && time.Now().UnixNano()-s > int64(limit) {
 				name, _ := actName.Load().(string)
-				if sc := currentCase; sc != nil && prop.ID == "C05" {
-					scc := *sc
-					plan := &Plan{Harness: 1, Property: "C05", World: World{Readers: sc.Readers, Host: HostSpec{Seed: sc.Seed}}, Extra: map[string]any{"case": scc, "index": 0}}
-					addViolation(plan, &Violation{Clause: "C05.hang", OpIndex: -1, Note: "loading did not return within 60 s"})
-					finish()
-					os.Exit(0)
-				}
 				fmt.Printf("WATCHDOG %s exceeded %v\n", name, limit)
 				os.Exit(3)
 			}
